@@ -25,10 +25,12 @@ class Opaque:
     def __ne__(self, o): return not self.__eq__(o)
     def __hash__(self): return hash(('opaque', self.cls))
     def __repr__(self): return f'<obj {self.term} ~{self.cls}>'
+    def __deepcopy__(self, memo): return self          # as a value, a deep copy of an opaque object is that object
+    def __copy__(self): return self
 
 
 class UserError(Exception):
-    def __init__(self, term): super().__init__(str(term)); self.term = term
+    def __init__(self, term, origin=None): super().__init__(str(term)); self.term = term; self.origin = origin
 
 
 class Concretizer:
@@ -128,7 +130,7 @@ class Concretizer:
             rz = Function(f'raises_{name}', *([Val] * len(targs)), BoolSort())
             if is_true(conc.ev(rz(*targs))):
                 log[-1] = (name, tuple(targs), 'raised')
-                raise UserError(conc.ev(Function(f'exc_{name}', *([Val] * len(targs)), Val)(*targs)))
+                raise UserError(conc.ev(Function(f'exc_{name}', *([Val] * len(targs)), Val)(*targs)), origin=name)
             fn = Function(f'u_{name}', *([Val] * len(targs)), Val)
             return conc.val(fn(*targs))
         f.__name__ = name
@@ -150,8 +152,10 @@ def bytes_term(b):
     return Concat(*[Unit(z3.BitVecVal(c, 8)) for c in b])
 
 
-def real_event_term(conc, e):
+def real_event_term(conc, e, plain=False):
     import rxsci as rs
+    if plain:
+        return Ev.Item(conc.term(e))
     if type(e) is rs.OnCreateMux: return Ev.Create(conc.key_term(e.key))
     if type(e) is rs.OnNextMux: return Ev.Next(conc.key_term(e.key), conc.term(e.item))
     if type(e) is rs.OnCompletedMux: return Ev.Completed(conc.key_term(e.key))
@@ -265,7 +269,7 @@ def replay_operator(world, run, ob, opts):
     for ch, e in emitted:
         if isinstance(e, tuple) and e and e[0] == 'ERR': t = Ev.Err(conc.term(e[1]))
         elif isinstance(e, tuple) and e and e[0] == 'DONE': t = Ev.Done
-        else: t = real_event_term(conc, e)
+        else: t = real_event_term(conc, e, plain=(ch == OUT and not isinstance(out_obs, rs.MuxObservable)))
         parts.append(Unit(Em.Em(IntVal(ch), t)))
     q.trace = Concat(ctx.trace0, *parts) if parts else ctx.trace0
     if len(parts) == 1:
@@ -291,6 +295,8 @@ def replay_operator(world, run, ob, opts):
     q.calls = list(log)
     q.ghost['stores_emitted'] = []
     failed = []
+    if isinstance(exc, UserError):
+        q.exc = ExcV('UserError', (), origin=exc.origin, term=exc.term)      # the callback's own exception escaped the handler
     if exc is not None and not isinstance(exc, UserError):
         failed.append(('no_exception_escapes', f'{type(exc).__name__}: {exc}'))
     try:
@@ -298,7 +304,13 @@ def replay_operator(world, run, ob, opts):
     except Exception as ex:
         clauses = []
         failed.append(('clause-evaluation', f'{type(ex).__name__}: {ex}'))
-    for name, goal in clauses:
+    from .pymodels import copy_of as _copy_of
+    from z3 import Var as _Var
+    for ent in clauses:
+        name, goal = ent[0], ent[1]
+        if name.startswith('calls') or name.startswith('store_forwarded'):
+            continue            # library-internal calls (deepcopy) are not observable from outside: not evaluated natively
+        goal = z3.substitute_funs(goal, (_copy_of, _Var(0, Val)))       # on values, a deep copy is the value itself
         val = conc.m.eval(goal, model_completion=True)
         val = simplify(val)
         if is_false(val):
